@@ -1206,26 +1206,48 @@ mod stream {
         ErrorKind::UnexpectedEof, ErrorKind::Other,
     ];
 
+    /// A reader whose behaviour does not depend on the size of the caller's buffer (an internal detail
+    /// of `hash_stream`): `chunks` are the sizes of the successive pieces it is willing to deliver (a
+    /// piece larger than the buffer takes several calls; a 0 makes it report end-of-stream there),
+    /// after the list it delivers as much as fits; `fail` = (byte offset, kind): exactly one read error,
+    /// raised when that many bytes have been delivered (pieces never straddle the offset).
     struct ScriptReader<'a> {
         data: &'a [u8],
-        sizes: Vec<usize>,
-        call: usize,
+        chunks: Vec<usize>,
+        ci: usize,
+        rem: usize,
+        delivered: usize,
         fail: Option<(usize, usize)>,
+        failed: bool,
     }
 
     impl Read for ScriptReader<'_> {
         fn read(&mut self, buf: &mut [u8]) -> io::Result<usize> {
-            let call = self.call;
-            self.call += 1;
-            if let Some((i, k)) = self.fail {
-                if i == call {
+            if let Some((f, k)) = self.fail {
+                if !self.failed && self.delivered == f {
+                    self.failed = true;
                     return Err(io::Error::new(KINDS[k % KINDS.len()], "scripted failure"));
                 }
             }
-            let want = if call < self.sizes.len() { self.sizes[call] } else { usize::MAX };
-            let n = want.min(buf.len()).min(self.data.len());
+            let mut want = usize::MAX;
+            if self.ci < self.chunks.len() {
+                if self.rem == 0 {
+                    self.rem = self.chunks[self.ci];
+                    if self.rem == 0 { self.ci += 1; return Ok(0); }
+                }
+                want = self.rem;
+            }
+            let mut n = want.min(buf.len()).min(self.data.len());
+            if let Some((f, _)) = self.fail {
+                if !self.failed && self.delivered < f { n = n.min(f - self.delivered); }
+            }
             buf[..n].copy_from_slice(&self.data[..n]);
             self.data = &self.data[n..];
+            self.delivered += n;
+            if self.ci < self.chunks.len() {
+                self.rem -= n;
+                if self.rem == 0 { self.ci += 1; }
+            }
             Ok(n)
         }
     }
@@ -1260,7 +1282,7 @@ mod stream {
                         (Ok(i), Ok(k)) => Some((i, k)), _ => return BAD.into(),
                     }
                 };
-                let mut rd = ScriptReader { data: &data, sizes, call: 0, fail };
+                let mut rd = ScriptReader { data: &data, chunks: sizes, ci: 0, rem: 0, delivered: 0, fail, failed: false };
                 res(guarded(|| ssdeep::hash_stream(&mut rd)), true)
             }
             _ => BAD.into(),
